@@ -95,7 +95,8 @@ def staticResetObs (c : LibCfg) (s : Src) : SObs :=
       | some v => { tag := "ok", v := v }
       -- a typed-nil pointer: the numeric arms write through it; `*string` never did, and since
       -- `fix: StaticInspector.Reset …` the `*[]byte` arm tests for nil as well
-      | none => if s.kind == .string || (s.kind == .bytes && !c.staticResetTextLost) then { tag := "okvalue" } else { tag := "panic" }
+      -- … and since `fix: StaticInspector dereferenced a typed-nil pointer` Reset returns at once for any of them
+      | none => if !c.staticNilPtrPanics || s.kind == .string || (s.kind == .bytes && !c.staticResetTextLost) then { tag := "okvalue" } else { tag := "panic" }
   if o.tag == "ok" && s.v.isNilPtr then { tag := "okvalue" } else o
 
 def staticResetAccepts (s : Src) (o : SObs) : Bool :=
